@@ -59,6 +59,32 @@ def convert : Action → Action
   | .finish => .finish
   | .fullBarrier => .finish
 
+/-! ## Decision kernels (each is bridged to a table produced by running the real function, see Props/C12) -/
+
+/-- fill_window(): "If end of stream has been reached or flushing completed, we allow the encoder to process all the
+    input". `allTaken` = the next coder / memcpy consumed all input (`ret == LZMA_STREAM_END` inside fill_window).
+    Returns (mf.action afterwards, read_limit afterwards). -/
+def fillWindow (a : Action) (allTaken : Bool) (writePos keepAfter oldLimit : Nat) : Action × Nat :=
+  if a != .run && allTaken then (a, writePos)
+  else (.run, if writePos > keepAfter then writePos - keepAfter else oldLimit)
+
+/-- The LZ layer lets the compressor reach the end of the window (so that every byte can be encoded) exactly then. -/
+def lzFlushing (a : Action) (allTaken : Bool) : Bool := a != .run && allTaken
+
+/-- lzma2_encode(), SEQ_INIT with nothing unencoded: return code and whether the end marker 0x00 is written. -/
+def lzma2SeqInitNoInput (a : Action) : Ret × Bool := (if a == .run then .ok else .streamEnd, a == .finish)
+
+/-- block_encode() and stream_encode(): `if (ret != LZMA_STREAM_END || action == LZMA_SYNC_FLUSH) return ret;` -/
+def returnsInnerRet (a : Action) (ret : Ret) : Bool := ret != .streamEnd || a == .syncFlush
+
+/-- stream_encode(), SEQ_BLOCK_INIT with `*in_pos == in_size`: `some r` = return r (no Block is started),
+    `none` = go on to encode the Index (LZMA_FINISH). -/
+def blockInitNoInput (a : Action) : Option Ret :=
+  if a != .finish then some (if a == .run then .ok else .streamEnd) else none
+
+/-- simple_code(): `if (action == LZMA_SYNC_FLUSH) return LZMA_OPTIONS_ERROR;`; lzma_encode() likewise for LZMA1. -/
+def refusesSync (a : Action) : Bool := a == .syncFlush
+
 /-! ## Filters and chains -/
 
 def ID_LZMA1 : Nat := 0x4000000000000001
@@ -100,12 +126,15 @@ inductive FKind where
 
 structure Filter where
   id : Nat
-  kind : FKind
   props : Props := ⟨3, 0, 2⟩   -- LZMA1/LZMA2: lc/lp/pb
   dict : Nat := 0              -- LZMA1/LZMA2: dict_size
   dist : Nat := 1              -- delta
   start : Nat := 0             -- BCJ start_offset
   deriving DecidableEq, Repr, Inhabited
+
+/-- The coder family a Filter ID selects (every other ID the encoders know is a BCJ filter). -/
+def Filter.kind (f : Filter) : FKind :=
+  if f.id = ID_LZMA1 then .lzma1 else if f.id = ID_LZMA2 then .lzma2 else if f.id = ID_DELTA then .delta else .bcj
 
 abbrev Chain := List Filter
 
@@ -283,14 +312,19 @@ def L2.atSeqInit {σ} (l : L2 σ) : Bool := l.unenc.isEmpty
 def byte (n : Nat) : UInt8 := UInt8.ofNat (n % 256)
 
 /-- `lzma2_header_lzma`: control byte, sizes, optional properties byte -/
+def lzmaControl (needProps needStateReset needDictReset : Bool) : Nat :=
+  if needProps then (if needDictReset then 0xE0 else 0xC0) else (if needStateReset then 0xA0 else 0x80)
+
+def storedControl (needDictReset : Bool) : Nat := if needDictReset then 1 else 2
+
 def lzmaHeader (needProps needStateReset needDictReset : Bool) (opt : Props) (n csize : Nat) : Bytes :=
-  let base := if needProps then (if needDictReset then 0xE0 else 0xC0) else (if needStateReset then 0xA0 else 0x80)
+  let base := lzmaControl needProps needStateReset needDictReset
   [byte (base + (n - 1) / 65536), byte ((n - 1) / 256), byte (n - 1), byte ((csize - 1) / 256), byte (csize - 1)]
     ++ (if needProps then [byte opt.byte] else [])
 
 /-- `lzma2_header_uncompressed` -/
 def storedHeader (needDictReset : Bool) (n : Nat) : Bytes :=
-  [if needDictReset then 1 else 2, byte ((n - 1) / 256), byte (n - 1)]
+  [byte (storedControl needDictReset), byte ((n - 1) / 256), byte (n - 1)]
 
 /-- One chunk, from SEQ_INIT (with something unencoded) back to SEQ_INIT. -/
 def L2.emit {σ} (l : L2 σ) (st0 : σ) (ch : Choice) (st1 : σ) : L2 σ × Bytes :=
@@ -304,6 +338,9 @@ def L2.emit {σ} (l : L2 σ) (st0 : σ) (ch : Choice) (st1 : σ) : L2 σ × Byte
               hist := l.hist ++ data, unenc := l.unenc.drop ch.n },
      storedHeader l.needDictReset ch.n ++ data)
 
+/-- The coder state a chunk is started with (SEQ_INIT: `if (need_state_reset) lzma_lzma_encoder_reset(...)`). -/
+def L2.startState {σ} (C : Codec σ) (l : L2 σ) : σ := if l.needStateReset then C.reset l.opt else l.st
+
 /-- The `while` loop of lzma2_encode as far as whole chunks go: start a chunk while something is unencoded
     (resetting the LZMA coder first when `need_state_reset`), close it when the compressor says so.
     `fuel` bounds the number of chunks (each covers at least one byte). -/
@@ -312,7 +349,7 @@ def L2.closeChunks {σ} (C : Codec σ) (flushing : Bool) : Nat → L2 σ → L2 
   | fuel + 1, l =>
     if l.unenc.isEmpty then (l, [])
     else
-      let st0 := if l.needStateReset then C.reset l.opt else l.st
+      let st0 := l.startState C
       match C.choose flushing l.opt st0 l.hist l.unenc with
       | none => (l, [])
       | some (ch, st1) =>
@@ -327,10 +364,14 @@ def L2.closeChunks {σ} (C : Codec σ) (flushing : Bool) : Nat → L2 σ → L2 
     LZMA_STREAM_END, writing the end marker 0x00 only for LZMA_FINISH. -/
 def L2.code {σ} (C : Codec σ) (l : L2 σ) (inp : Bytes) (a : Action) : L2 σ × Bytes × Ret :=
   let l0 := { l with unenc := l.unenc ++ inp }
-  let (l1, out) := L2.closeChunks C (a != .run) (l0.unenc.length + 1) l0
-  if a == .run then (l1, out, .ok)
-  else if !l1.unenc.isEmpty then (l1, out, .progError)   -- unreachable under Codec.Sound (live)
-  else (l1, if a == .finish then out ++ [0] else out, .streamEnd)
+  let (l1, out) := L2.closeChunks C (lzFlushing a true) (l0.unenc.length + 1) l0
+  if !l1.unenc.isEmpty then
+    -- SEQ_LZMA_ENCODE: a chunk stays open. Under LZMA_RUN that is the normal case; when flushing it is
+    -- unreachable under Codec.Sound (live)
+    (l1, out, if a == .run then .ok else .progError)
+  else
+    let (ret, marker) := lzma2SeqInitNoInput a
+    (l1, if marker then out ++ [0] else out, ret)
 
 /-- `lzma2_encoder_options_update` -/
 def L2.optionsUpdate {σ} (l : L2 σ) (p : Props) : L2 σ × Ret :=
@@ -354,51 +395,76 @@ structure Dec (σ : Type) where
 def Dec.init {σ} (C : Codec σ) : Dec σ :=
   { needProps := true, needDictReset := true, props := ⟨0, 0, 0⟩, st := C.reset ⟨0, 0, 0⟩, out := [], ended := false }
 
-/-- Decodes ONE chunk (or the end marker) from the front of `inp`. `none` = LZMA_DATA_ERROR or truncated input. -/
-def Dec.chunk {σ} (C : Codec σ) (d : Dec σ) : Bytes → Option (Dec σ × Bytes)
+/-- A parsed chunk header (lzma2_decoder.c SEQ_CONTROL .. SEQ_PROPERTIES). `control = 0` is the end marker. -/
+structure ChunkHdr where
+  control : Nat
+  usize : Nat                -- uncompressed size of the chunk
+  csize : Nat                -- number of bytes of chunk data behind the header
+  propsByte : Option Nat
+  deriving DecidableEq, Repr, Inhabited
+
+/-- Reads one chunk header from the front of the input; returns it and the bytes behind it. -/
+def parseChunkHeader : Bytes → Option (ChunkHdr × Bytes)
   | [] => none
   | c :: rest =>
-    let c := c.toNat
-    if c = 0 then some ({ d with ended := true }, rest)
+    if c.toNat = 0 then some (⟨0, 0, 0, none⟩, rest)
+    else if c.toNat ≥ 0x80 then
+      match rest with
+      | b1 :: b2 :: b3 :: b4 :: r1 =>
+        let usize := (c.toNat % 32) * 65536 + b1.toNat * 256 + b2.toNat + 1
+        let csize := b3.toNat * 256 + b4.toNat + 1
+        if c.toNat ≥ 0xC0 then
+          match r1 with
+          | p :: r2 => some (⟨c.toNat, usize, csize, some p.toNat⟩, r2)
+          | [] => none
+        else some (⟨c.toNat, usize, csize, none⟩, r1)
+      | _ => none
+    else if c.toNat > 2 then none
     else
-      let dictReset := c ≥ 0xE0 || c = 1
-      if !dictReset && d.needDictReset then none
+      match rest with
+      | b1 :: b2 :: r1 => some (⟨c.toNat, b1.toNat * 256 + b2.toNat + 1, b1.toNat * 256 + b2.toNat + 1, none⟩, r1)
+      | _ => none
+
+/-- SEQ_CONTROL/SEQ_PROPERTIES for an LZMA chunk: which lc/lp/pb and which coder state it is decoded with
+    (new properties reset the state; control >= 0xA0 resets the state; otherwise it continues). `none` = LZMA_DATA_ERROR. -/
+def Dec.select {σ} (C : Codec σ) (d : Dec σ) (h : ChunkHdr) (needProps : Bool) : Option (Props × σ) :=
+  match h.propsByte with
+  | some pb => (Props.ofByte pb).map fun p => (p, C.reset p)
+  | none =>
+    if needProps then none
+    else if h.control ≥ 0xA0 then some (d.props, C.reset d.props)
+    else some (d.props, d.st)
+
+/-- The decoder's reaction to a chunk header followed by `body` (the chunk data and whatever follows it).
+    `none` = LZMA_DATA_ERROR or truncated input. -/
+def Dec.apply {σ} (C : Codec σ) (d : Dec σ) (h : ChunkHdr) (body : Bytes) : Option (Dec σ × Bytes) :=
+  if h.control = 0 then some ({ d with ended := true }, body)
+  else
+    let dictReset := h.control ≥ 0xE0 || h.control = 1
+    if !dictReset && d.needDictReset then none
+    -- our streams reset the dictionary only at the very first chunk; a later reset would have to clear `out`
+    else if dictReset && !d.out.isEmpty then none
+    else if body.length < h.csize then none
+    else
+      let needProps := if dictReset then true else d.needProps
+      if h.control ≥ 0x80 then
+        match d.select C h needProps with
+        | none => none
+        | some (p, st) =>
+          match C.dec p st d.out (body.take h.csize) h.usize with
+          | none => none
+          | some (data, st') =>
+            some ({ d with needProps := false, needDictReset := false, props := p, st := st', out := d.out ++ data },
+                  body.drop h.csize)
       else
-        let needProps := if dictReset then true else d.needProps
-        -- our streams reset the dictionary only at the very first chunk; a later reset would clear `out`
-        if dictReset && !d.out.isEmpty then none
-        else if c ≥ 0x80 then
-          match rest with
-          | b1 :: b2 :: b3 :: b4 :: rest1 =>
-            let usize := (c % 32) * 65536 + b1.toNat * 256 + b2.toNat + 1
-            let csize := b3.toNat * 256 + b4.toNat + 1
-            let hdr : Option (Props × σ × Bytes) :=
-              if c ≥ 0xC0 then
-                match rest1 with
-                | pb :: rest2 => (Props.ofByte pb.toNat).map fun p => (p, C.reset p, rest2)
-                | [] => none
-              else if needProps then none
-              else if c ≥ 0xA0 then some (d.props, C.reset d.props, rest1)
-              else some (d.props, d.st, rest1)
-            match hdr with
-            | none => none
-            | some (p, st, body) =>
-              if body.length < csize then none
-              else match C.dec p st d.out (body.take csize) usize with
-                | none => none
-                | some (data, st') =>
-                  some ({ d with needProps := false, needDictReset := false, props := p, st := st',
-                                 out := d.out ++ data }, body.drop csize)
-          | _ => none
-        else if c > 2 then none
-        else
-          match rest with
-          | b1 :: b2 :: rest1 =>
-            let usize := b1.toNat * 256 + b2.toNat + 1
-            if rest1.length < usize then none
-            else some ({ d with needProps := needProps, needDictReset := false, out := d.out ++ rest1.take usize },
-                       rest1.drop usize)
-          | _ => none
+        some ({ d with needProps := needProps, needDictReset := false, out := d.out ++ body.take h.csize },
+              body.drop h.csize)
+
+/-- Decodes ONE chunk (or the end marker) from the front of `inp`. `none` = LZMA_DATA_ERROR or truncated input. -/
+def Dec.chunk {σ} (C : Codec σ) (d : Dec σ) (inp : Bytes) : Option (Dec σ × Bytes) :=
+  match parseChunkHeader inp with
+  | none => none
+  | some (h, body) => d.apply C h body
 
 /-- Decodes whole chunks until the input is used up or the end marker has been read.
     Returns the decoder (at SEQ_CONTROL) and the unread rest (non-empty only behind an end marker). -/
@@ -445,7 +511,7 @@ def RawEnc.init {σ} (C : Codec σ) (fs : Chain) : RawEnc σ :=
 /-- One operation on the chain (action ∈ RUN, SYNC_FLUSH, FINISH). Returns the coder, the output, the number of
     input bytes consumed and the return code. -/
 def RawEnc.code {σ} (E : Env σ) (C : Codec σ) (r : RawEnc σ) (inp : Bytes) (a : Action) : RawEnc σ × Bytes × Nat × Ret :=
-  if a == .syncFlush && !r.pre.canSync then
+  if refusesSync a && !r.pre.canSync then
     -- simple_code: `if (action == LZMA_SYNC_FLUSH) return LZMA_OPTIONS_ERROR;` reached from fill_window once the LZ
     -- encoder has used up what it had; nothing new is consumed
     if r.isLzma1 then (r, [], 0, .optionsError)
@@ -460,7 +526,7 @@ def RawEnc.code {σ} (E : Env σ) (C : Codec σ) (r : RawEnc σ) (inp : Bytes) (
     if r.isLzma1 then
       -- lzma_encode: `if (mf->action == LZMA_SYNC_FLUSH) return LZMA_OPTIONS_ERROR;` after fill_window took the input.
       -- The LZMA1 byte stream itself is not modelled.
-      if a == .syncFlush then ({ r with pre := pre' }, [], inp.length, .optionsError)
+      if refusesSync a then ({ r with pre := pre' }, [], inp.length, .optionsError)
       else ({ r with pre := pre' }, [], inp.length, if a == .run then .ok else .streamEnd)
     else
       let (l1, out, ret) := r.l2.code C delivered a
@@ -497,6 +563,7 @@ structure BlockEnc (σ : Type) where
   uncompressedSize : Nat
   checkId : Nat
   data : Bytes           -- what lzma_check_update has seen
+  emitted : Bytes        -- ghost: every byte this Block encoder has written so far
   deriving Inhabited
 
 def COMPRESSED_SIZE_MAX : Nat := (Vli.VLI_MAX - 1024 - 64) / 4 * 4
@@ -504,8 +571,12 @@ def COMPRESSED_SIZE_MAX : Nat := (Vli.VLI_MAX - 1024 - 64) / 4 * 4
 /-- `lzma_block_encoder_init` (check ID assumed supported) -/
 def BlockEnc.init {σ} (C : Codec σ) (fs : Chain) (check : Nat) : Res (BlockEnc σ) :=
   match rawInitRet fs with
-  | .ok => .ok { raw := RawEnc.init C fs, seq := .code, compressedSize := 0, uncompressedSize := 0, checkId := check, data := [] }
+  | .ok => .ok { raw := RawEnc.init C fs, seq := .code, compressedSize := 0, uncompressedSize := 0, checkId := check, data := [], emitted := [] }
   | r => .error r
+
+/-- SEQ_PADDING + SEQ_CHECK: Block Padding to a multiple of four, then the Check field -/
+def blockTail {σ} (E : Env σ) (checkId compressedSize : Nat) (data : Bytes) : Bytes :=
+  List.replicate ((4 - compressedSize % 4) % 4) (0 : UInt8) ++ (if checkId = 0 then [] else E.checkBytes checkId data)
 
 /-- `block_encode` -/
 def BlockEnc.code {σ} (E : Env σ) (C : Codec σ) (b : BlockEnc σ) (inp : Bytes) (a : Action) : BlockEnc σ × Bytes × Nat × Ret :=
@@ -514,16 +585,16 @@ def BlockEnc.code {σ} (E : Env σ) (C : Codec σ) (b : BlockEnc σ) (inp : Byte
     match b.seq with
     | .code =>
       let (r1, out, used, ret) := b.raw.code E C inp a
-      if COMPRESSED_SIZE_MAX - b.compressedSize < out.length then ({ b with raw := r1 }, out, used, .dataError)
+      if COMPRESSED_SIZE_MAX - b.compressedSize < out.length then ({ b with raw := r1, emitted := b.emitted ++ out }, out, used, .dataError)
       else
         let b1 := { b with raw := r1, compressedSize := b.compressedSize + out.length,
-                           uncompressedSize := b.uncompressedSize + used, data := b.data ++ inp.take used }
-        if ret != .streamEnd || a == .syncFlush then (b1, out, used, ret)
+                           uncompressedSize := b.uncompressedSize + used, data := b.data ++ inp.take used,
+                           emitted := b.emitted ++ out }
+        if returnsInnerRet a ret then (b1, out, used, ret)
         else
           -- SEQ_PADDING, SEQ_CHECK
-          let pad := List.replicate ((4 - b1.compressedSize % 4) % 4) (0 : UInt8)
-          let chk := if b1.checkId = 0 then [] else E.checkBytes b1.checkId b1.data
-          ({ b1 with seq := .check }, out ++ pad ++ chk, used, .streamEnd)
+          let tail := blockTail E b1.checkId b1.compressedSize b1.data
+          ({ b1 with seq := .check, emitted := b1.emitted ++ tail }, out ++ tail, used, .streamEnd)
     | _ => (b, [], 0, .streamEnd)   -- a finished Block encoder is never called again by the callers modelled here
 
 /-- `block_encoder_update` -/
@@ -555,6 +626,13 @@ inductive Seg where
   | streamFooter (check : Nat) (recs : List (Nat × Nat))
   deriving Repr, Inhabited
 
+/-- ghost record of a finished Block: the chain in its header, its uncompressed data, everything written behind its header -/
+structure DoneBlock where
+  chain : Chain
+  data : Bytes
+  body : Bytes
+  deriving Repr, Inhabited
+
 structure StreamEnc (σ : Type) where
   seq : SSeq
   blockInited : Bool       -- block_encoder_is_initialized
@@ -563,6 +641,8 @@ structure StreamEnc (σ : Type) where
   block : BlockEnc σ
   headerSize : Nat         -- block_options.header_size
   records : List (Nat × Nat)   -- the Index: (Unpadded Size, Uncompressed Size) per Block
+  openChain : Chain        -- ghost: the chain written into the header of the open Block
+  done : List DoneBlock    -- ghost: the Blocks finished so far
   deriving Inhabited
 
 /-- `block_encoder_init` of stream_encoder.c: header size first (this is where LZMA1 is turned down), then the coder -/
@@ -590,8 +670,8 @@ def StreamEnc.update {σ} (C : Codec σ) (s : StreamEnc σ) (fs : Chain) : Strea
 def StreamEnc.init {σ} (C : Codec σ) (fs : Chain) (check : Nat) : StreamEnc σ × Ret :=
   let s0 : StreamEnc σ := { seq := .streamHeader, blockInited := false, filters := [], check := check,
                             block := { raw := RawEnc.init C fs, seq := .code, compressedSize := 0, uncompressedSize := 0,
-                                       checkId := check, data := [] },
-                            headerSize := 0, records := [] }
+                                       checkId := check, data := [], emitted := [] },
+                            headerSize := 0, records := [], openChain := [], done := [] }
   s0.update C fs
 
 /-- `stream_encode`, driven until it returns (unlimited output). `fuel` bounds the number of sequence steps. -/
@@ -606,24 +686,26 @@ def StreamEnc.code {σ} (E : Env σ) : Nat → StreamEnc σ → Bytes → Action
       if inp.isEmpty then
         -- "If we are requested to flush or finish the current Block, return LZMA_STREAM_END immediately
         --  since there's nothing to do."
-        if a != .finish then (s, [], 0, if a == .run then .ok else .streamEnd)
-        else StreamEnc.code E fuel { s with seq := .indexEncode } inp a
+        match blockInitNoInput a with
+        | some r => (s, [], 0, r)
+        | none => StreamEnc.code E fuel { s with seq := .indexEncode } inp a
       else
         match (if s.blockInited then Except.ok (s.block, s.headerSize) else streamBlockInit (E.codec s.records.length) s.filters s.check) with
         | .error r => (s, [], 0, r)
         | .ok (b, h) =>
-          let s1 := { s with blockInited := false, block := b, headerSize := h, seq := .blockEncode }
+          let s1 := { s with blockInited := false, block := b, headerSize := h, seq := .blockEncode, openChain := s.filters }
           let (s2, o, u, r) := StreamEnc.code E fuel s1 inp a
           (s2, Seg.blockHeader s.filters none none :: o, u, r)
     | .blockHeader => (s, [], 0, .progError)      -- not a resting state at this granularity
     | .blockEncode =>
       let (b1, out, used, ret) := s.block.code E (E.codec s.records.length) inp (convert a)
       let s1 := { s with block := b1 }
-      if ret != .streamEnd || a == .syncFlush then (s1, [Seg.body out], used, ret)
+      if returnsInnerRet a ret then (s1, [Seg.body out], used, ret)
       else
         -- Add a new Index Record: lzma_block_unpadded_size, uncompressed_size
         let unpadded := s.headerSize + b1.compressedSize + checkSize s.check
-        let s2 := { s1 with records := s1.records ++ [(unpadded, b1.uncompressedSize)], seq := .blockInit }
+        let s2 := { s1 with records := s1.records ++ [(unpadded, b1.uncompressedSize)], seq := .blockInit,
+                            done := s1.done ++ [{ chain := s1.openChain, data := b1.data, body := b1.emitted }] }
         let (s3, o, _, r) := StreamEnc.code E fuel s2 [] a
         (s3, Seg.body out :: o, used, r)
     | .indexEncode =>
@@ -657,7 +739,7 @@ def mtStoredBody (fuel : Nat) (first : Bool) (data : Bytes) : Bytes :=
       let n := min data.length LZMA2_CHUNK_MAX
       storedHeader first n ++ data.take n ++ mtStoredBody fuel false (data.drop n)
 
-def ID_STORED_CHAIN : Chain := [{ id := ID_LZMA2, kind := .lzma2, dict := DICT_MIN }]
+def ID_STORED_CHAIN : Chain := [{ id := ID_LZMA2, dict := DICT_MIN }]
 
 def mtEncodeBlock {σ} (E : Env σ) (ord : Nat) (fs : Chain) (check : Nat) (data : Bytes) : List Seg × (Nat × Nat) × Ret :=
   let h := E.mtHeaderSize ord fs
@@ -785,6 +867,41 @@ def Enc.run {σ} (E : Env σ) : Enc σ → List Op → Enc σ × List OpResult
     let (e1, r) := e.step E op
     let (e2, rs) := Enc.run E e1 rest
     (e2, r :: rs)
+
+/-! ## Histories with their observable trace -/
+
+/-- What has been observed so far: everything written, every input byte consumed, the return codes. -/
+structure Trace where
+  segs : List Seg := []
+  input : Bytes := []
+  rets : List Ret := []
+  deriving Inhabited
+
+def Op.data : Op → Bytes
+  | .code _ d => d
+  | .update _ => []
+
+def Enc.exec {σ} (E : Env σ) (et : Enc σ × Trace) (op : Op) : Enc σ × Trace :=
+  let r := et.1.step E op
+  (r.1, { segs := et.2.segs ++ r.2.segs, input := et.2.input ++ op.data.take r.2.used, rets := et.2.rets ++ [r.2.ret] })
+
+def Enc.execAll {σ} (E : Env σ) (e : Enc σ) (ops : List Op) : Enc σ × Trace := ops.foldl (Enc.exec E) (e, {})
+
+/-- the public init functions (the chain is assumed to have been accepted) -/
+def Enc.rawInit {σ} (E : Env σ) (fs : Chain) : Enc σ :=
+  { core := .raw (RawEnc.init (E.codec 0) fs), supported := supportedRaw, dead := false, finished := false }
+
+def Enc.streamInit {σ} (E : Env σ) (fs : Chain) (check : Nat) : Enc σ :=
+  { core := .stream (StreamEnc.init (E.codec 0) fs check).1, supported := supportedStream, dead := false, finished := false }
+
+def Enc.mtInit {σ} (fs : Chain) (check blockSize : Nat) : Enc σ :=
+  { core := .mt (MtEnc.init fs check blockSize), supported := supportedMt, dead := false, finished := false }
+
+/-- the bytes of a raw / Block encoder's output (it consists of `Seg.body` pieces only) -/
+def bodies : List Seg → Bytes
+  | [] => []
+  | .body b :: rest => b ++ bodies rest
+  | _ :: rest => bodies rest
 
 /-! ## Rendering segments to bytes -/
 
